@@ -208,14 +208,14 @@ theorem stepOk_step (c : Case) (lf : Leaf) (s : IState) (op : Op)
       (o.snap == render c s &&
         (if (fieldVals c (render c s)).all (·.2.isSome) then
           o.exc == none && o.values == some (fieldVals c (render c s)) && o.flags.contains "fresh" && o.flags.contains "frozen" &&
-          (!hashReady c (render c s) || o.flags.contains "reshash")
+          (!hashReady c (render c s) || (o.flags.contains "reshash" && o.flags.contains "twin"))
          else true)) = true := by
     intro o ho hg
     subst ho
     unfold copyObs
     by_cases hall : (fieldVals c (render c s)).all (·.2.isSome) = true
     · rw [if_pos hall, copy_ok c lf s hs hg hall]
-      cases hh : hashReady c (render c s) <;> simp [copyFlags, resFlags_frozen lf hs, hh]
+      cases hh : hashReady c (render c s) <;> simp [copyFlags, hashFlags, resFlags_frozen lf hs, hh]
     · rw [if_neg hall]; simp
   cases op with
   | set n v =>
@@ -303,7 +303,9 @@ theorem stepOk_step (c : Case) (lf : Leaf) (s : IState) (op : Op)
         rw [he] at this
         have hne : e ≠ .frozenInstance := fun hc => this (by rw [hc])
         simp [hne]
-      · simp [resFlags_frozen lf hs]
+      · rename_i ho
+        cases hh : evolveReady c (runInit { effInit c lf.frozen with call := C12.evolveCall c.init.run.attrs (fieldVals c (render c s)) ch }).values <;>
+          simp [evolveFlags, hashFlags, resFlags_frozen lf hs, hh]
   | raise_ => simp [stepOk, step, render]
   | raiseFrom => simp [stepOk, step, render]
   | chain => simp [stepOk, step, render]
